@@ -238,96 +238,79 @@ Section Sim.
     rewrite bind_assoc.
     eapply (sim_bind w) with (P := expect_c c stk' ctx lv) (o1 := srec c stk' (emb w 0 0 lv)).
     - apply Hrec; assumption.
-    - intros r w1. cbn [bind]. apply mono_out. msimp.
-      repeat match goal with |- context [if ?b then _ :: _ else _] => destruct b end;
-        repeat apply ext_cons; apply ext_refl.
+    - intros r w1. cbn [bind]. apply mono_same; reflexivity.
     - intros ->. reflexivity.
     - intros r w1 _ Hg HP Hf1. cbn [bind]. rewrite pipe_result_single.
-      destruct r as [code fl]. cbn [sim]. msimp. cbn [andb negb fst snd].
-      intros Hgh.
-      (* no ghost mark was added *)
-      assert (Hb : (bang && is_return_or_exit (code, fl)) = false).
-      { destruct (bang && is_return_or_exit (code, fl)); [|reflexivity].
-        destruct (_ && quiet_compound c) in Hgh; discriminate Hgh. }
-      rewrite Hb in Hgh |- *.
-      set (code' := if bang then if is_success (code, fl) then 1 else 0 else code) in *.
-      set (w4 := set_last code' _) in *.
-      assert (Hemb : forall b0 c0 l0 n, emb (set_last n w4) b0 c0 l0 = emb (set_last n w1) b0 c0 l0) by reflexivity.
-      assert (Hfw : funs_ok (sh (mark GCompound
-                 (negb (is_normal (if negb (exempt stk') then apply_errexit (sh w4) (code', fl) else (code', fl))) &&
-                  is_normal (code', fl) && quiet_compound c) w4))) by exact Hf1.
-      split; [|exact Hfw]. clear Hfw.
+      destruct r as [code fl]. cbn [sim]. intros _. split; [|exact Hf1].
       unfold expect_c in HP.
       destruct (checks c && pending stk' (code, fl) w1) eqn:Ep.
       + (* bash exits inside the command, brush right here *)
         apply andb_prop in Ep as [Ec Ep]. unfold pending in Ep.
         destruct fl; try discriminate Ep. cbn [is_normal snd andb] in Ep.
         apply andb_prop in Ep as [Ep Ex]. apply andb_prop in Ep as [Ee En].
-        destruct HP as (s & -> & Hl1 & Ho1). cbn [sbind fst snd].
+        destruct HP as (s & -> & Hl1 & Ho1). cbn [sbind].
         assert (Hbang : bang = false).
         { subst stk'. destruct bang; [|reflexivity]. cbn in Ex. discriminate Ex. }
-        subst code' w4 stk'. subst bang. clear Hb.
-        apply negb_true_iff in Ex. rewrite Ex. cbn [negb].
-        unfold apply_errexit. cbn [sh set_last upd_sh mark sh_set_last opt]. rewrite Ee.
+        subst stk'. subst bang.
+        apply negb_true_iff in Ex. rewrite Ex.
+        unfold checks in Ec. rewrite Ec. cbn [negb andb is_return_or_exit snd fst].
+        unfold apply_errexit. cbn [sh set_last upd_sh sh_set_last opt]. rewrite Ee.
         unfold is_success in *. cbn [fst snd is_normal] in *. rewrite En. cbn [andb negb].
         split; [|reflexivity]. cbn [expect snd fst]. exists s. repeat split; assumption.
       + assert (Hq : pending stk' (code, fl) w1 = true -> quiet_compound c = true).
         { intros Hp. rewrite Hp, andb_true_r in Ep. apply checks_quiet, Ep. }
         cbn [expect snd fst] in HP.
-        destruct fl; cbn [is_normal snd fst andb negb] in *.
+        destruct fl; cbn [is_normal is_return_or_exit snd fst andb negb] in *.
         * (* Normal *)
-          rewrite HP. cbn [sbind fst snd].
+          rewrite HP. cbn [sbind fst snd]. rewrite andb_true_r.
+          set (code' := if bang then if is_success (code, Normal) then 1 else 0 else code).
           assert (Hinv : (if bang then b_set_last (if ok (emb (set_last code w1) 0 0 lv) then 1 else 0) (emb (set_last code w1) 0 0 lv)
                           else emb (set_last code w1) 0 0 lv) = emb (set_last code' w1) 0 0 lv).
           { subst code'. destruct bang; reflexivity. }
           rewrite Hinv.
-          destruct (negb (exempt stk')) eqn:Ex.
-          -- unfold apply_errexit. change (errexit (opt (sh w4))) with (errexit (opt (sh w1))).
-             unfold is_success. cbn [is_normal snd fst].
-             destruct (errexit (opt (sh w1)) && negb (Nat.eqb code' 0) && true) eqn:Efire.
-             ++ (* brush fires: then the command is a quiet compound and the ghost is marked *)
-                exfalso. cbn [is_normal snd negb andb] in Hgh.
-                assert (Hbang : bang = false).
-                { subst stk'. destruct bang; [|reflexivity]. cbn in Ex. discriminate Ex. }
-                subst code' w4 stk'. subst bang.
-                rewrite andb_true_r in Efire. apply andb_prop in Efire as [Ee En].
-                unfold apply_errexit in Hgh.
-                cbn [sh set_last upd_sh mark sh_set_last opt is_normal fst snd] in Hgh.
-                unfold is_success in Hgh. cbn [fst] in Hgh.
-                rewrite Ee, En in Hgh. cbn [andb negb is_normal snd] in Hgh.
-                rewrite Hq in Hgh; [discriminate Hgh|].
-                unfold pending, is_success. cbn [is_normal snd andb fst]. rewrite Ee, En, Ex. reflexivity.
-             ++ cbn [is_normal snd negb andb]. split; [|reflexivity]. cbn [expect snd fst]. rewrite Hemb. reflexivity.
-          -- cbn [is_normal snd negb andb]. split; [|reflexivity]. cbn [expect snd fst]. rewrite Hemb. reflexivity.
+          assert (Hnofire : (if negb (exempt stk') && negb (quiet_compound c)
+                             then apply_errexit (sh (set_last code' w1)) (code', Normal) else (code', Normal)) = (code', Normal)).
+          { destruct (negb (exempt stk')) eqn:Ex; [|reflexivity].
+            destruct (quiet_compound c) eqn:Eq; [reflexivity|]. cbn [andb negb].
+            unfold apply_errexit. cbn [sh set_last upd_sh sh_set_last opt is_normal snd]. unfold is_success. cbn [fst].
+            destruct (errexit (opt (sh w1)) && negb (Nat.eqb code' 0) && true) eqn:Efire; [|reflexivity].
+            exfalso.
+            assert (Hbang : bang = false).
+            { subst stk'. destruct bang; [|reflexivity]. cbn in Ex. discriminate Ex. }
+            subst code' stk'. subst bang.
+            rewrite andb_true_r in Efire. apply andb_prop in Efire as [Ee En].
+            enough (Habs : false = true) by discriminate Habs. apply Hq.
+            unfold pending, is_success. cbn [is_normal snd andb fst]. rewrite Ee, En, Ex. reflexivity. }
+          rewrite Hnofire. split; [|reflexivity]. cbn [expect snd fst]. reflexivity.
         * (* Break *)
-          destruct HP as [-> Hk]. cbn [sbind fst snd].
+          destruct HP as [-> Hk]. cbn [sbind fst snd]. rewrite andb_true_r.
+          set (code' := if bang then if is_success (code, BreakLoop levels) then 1 else 0 else code).
           assert (Hinv : (if bang then b_set_last (if ok (emb (set_last code w1) (S levels) 0 lv) then 1 else 0) (emb (set_last code w1) (S levels) 0 lv)
                           else emb (set_last code w1) (S levels) 0 lv) = emb (set_last code' w1) (S levels) 0 lv).
           { subst code'. destruct bang; reflexivity. }
           rewrite Hinv.
           unfold apply_errexit. cbn [is_normal snd]. rewrite !andb_false_r.
-          destruct (negb (exempt stk')); cbn [is_normal snd negb andb];
-            (split; [|reflexivity]); cbn [expect snd fst]; rewrite Hemb; (split; [reflexivity|exact Hk]).
+          destruct (negb (exempt stk') && negb (quiet_compound c));
+            (split; [|reflexivity]); cbn [expect snd fst]; (split; [reflexivity|exact Hk]).
         * (* Continue *)
-          destruct HP as [-> Hk]. cbn [sbind fst snd].
+          destruct HP as [-> Hk]. cbn [sbind fst snd]. rewrite andb_true_r.
+          set (code' := if bang then if is_success (code, ContinueLoop levels) then 1 else 0 else code).
           assert (Hinv : (if bang then b_set_last (if ok (emb (set_last code w1) 0 (S levels) lv) then 1 else 0) (emb (set_last code w1) 0 (S levels) lv)
                           else emb (set_last code w1) 0 (S levels) lv) = emb (set_last code' w1) 0 (S levels) lv).
           { subst code'. destruct bang; reflexivity. }
           rewrite Hinv.
           unfold apply_errexit. cbn [is_normal snd]. rewrite !andb_false_r.
-          destruct (negb (exempt stk')); cbn [is_normal snd negb andb];
-            (split; [|reflexivity]); cbn [expect snd fst]; rewrite Hemb; (split; [reflexivity|exact Hk]).
-        * (* Return *)
-          destruct HP as (b0 & c0 & l0 & ->). cbn [sbind fst snd].
-          cbn [is_return_or_exit snd] in Hb. rewrite andb_true_r in Hb. subst code' w4. subst bang.
+          destruct (negb (exempt stk') && negb (quiet_compound c));
+            (split; [|reflexivity]); cbn [expect snd fst]; (split; [reflexivity|exact Hk]).
+        * (* Return: neither side inverts *)
+          destruct HP as (b0 & c0 & l0 & ->). cbn [sbind fst snd]. rewrite andb_false_r.
           unfold apply_errexit. cbn [is_normal snd]. rewrite !andb_false_r.
-          destruct (negb (exempt stk')); cbn [is_normal snd negb andb];
+          destruct (negb (exempt stk') && negb (quiet_compound c));
             (split; [|reflexivity]); cbn [expect snd fst]; do 3 eexists; reflexivity.
         * (* Exit *)
-          destruct HP as (s & -> & Hl1 & Ho1). cbn [sbind fst snd].
-          cbn [is_return_or_exit snd] in Hb. rewrite andb_true_r in Hb. subst code' w4. subst bang.
+          destruct HP as (s & -> & Hl1 & Ho1). cbn [sbind fst snd]. rewrite andb_false_r.
           unfold apply_errexit. cbn [is_normal snd]. rewrite !andb_false_r.
-          destruct (negb (exempt stk')); cbn [is_normal snd negb andb];
+          destruct (negb (exempt stk') && negb (quiet_compound c));
             (split; [|reflexivity]); cbn [expect snd fst]; exists s; repeat split; assumption.
     - apply Mrec.
   Qed.
